@@ -21,13 +21,17 @@ def cases(rng, tier):
         out.append({"cfg": h["cfg"], "ops": h["ops"]})
     # directed short histories: boundary verifiers and the classic attacks
     for ch, method, verifier in [(V43, None, V43), (V43, "plain", V43 + "\n"), (s256(V43), "S256", V43), (s256(V43), "S256", V_ALT), ("c" * 128, None, "c" * 128),
-                                 ("c" * 128, None, "c" * 129), (s256("v" * 42), "S256", "v" * 42), (V43, None, None), (None, None, V43), (s256(V43), None, V43)]:
+                                 ("c" * 128, None, "c" * 129), (s256("v" * 42), "S256", "v" * 42), (V43, None, None), (None, None, V43), (s256(V43), None, V43),
+                                 (None, None, None), ("a-b.c_d~" * 6, None, "a-b.c_d~" * 6), (s256("-._~" * 12), "S256", "-._~" * 12)]:          # every RFC 7636 punctuation character          # neither challenge nor verifier: refused for a public client where PKCE is required
         for cid, auth in (("c1", ["c1", "client_secret_basic"]), ("pub", ["pub", "none"])):
             for req in (False, True):
                 ops = [{"op": "authorize", "client": cid, "redirect": None, "scope": "a", "challenge": ch, "method": method, "user": 1, "approve": True},
                        {"op": "redeem", "auth": auth, "code": "code1", "redirect": None, "verifier": verifier},
                        {"op": "redeem", "auth": auth, "code": "code1", "redirect": None, "verifier": verifier}]
-                out.append({"cfg": dict(H.World(req).cfg), "ops": ops})
+                case = {"cfg": dict(H.World(req).cfg), "ops": ops}
+                if verifier is not None and verifier.startswith(("a-b.c_d~", "-._~")):
+                    case.update(expect=[True, True, False], registered="the client's default")      # a matching RFC 7636 verifier is accepted (once)
+                out.append(case)
     # the token request carries a scope parameter of its own: what is issued is what the resource owner approved, nothing more
     for approved in (None, "a", "a b"):
         for asked in ("a", "a b", "c", "a b c"):
@@ -176,8 +180,11 @@ def project(c, out):
 def oracle_core(c, out):
     v = _oracle_core(c, out)
     if c.get("expect") and len(out["outs"]) == len(c["expect"]):
-        got = [out["outs"][0].get("code") is not None, out["outs"][1].get("access") is not None]
-        if got != c["expect"]:
+        got = [o.get("code") is not None if op["op"] == "authorize" else o.get("access") is not None for op, o in zip(c["ops"], out["outs"])]
+        if got != c["expect"] and len(got) == 3:
+            v.append((f"PKCE with challenge {c['ops'][0]['challenge']!r} ({c['ops'][0]['method']}) and the matching RFC 7636 verifier {c['ops'][1]['verifier']!r}: "
+                      f"code issued / token issued / token issued again = {got}, the statement requires {c['expect']}", {"kind": "valid-verifier-refused"}))
+        elif got != c["expect"]:
             v.append((f"authorization with redirect_uri {c['ops'][0]['redirect']!r} then token request with {c['ops'][1]['redirect']!r}: code issued / token issued = {got}, "
                       f"the statement requires {c['expect']} (the registered URI is {c.get('registered', 'https://c1/cb3?next=%2Fhome')!r})", {"kind": "redirect-spelling"}))
     return v
